@@ -165,6 +165,190 @@ fn span_deref(x: u8, i: u32) -> %(t)s { let a = array![mk(x), mk(x)]; *a.span()[
 """ % {"t": t})
     if "eq" in f:
         o.append("fn equal(x: u8, y: u8) -> bool { mk(x) == mk(y) }\n")
+        # self-checking functions: `true` for every argument by construction (oracle: harness/h14run, leg C01).
+        # x2 is a second seed different from x, so that values at different positions can differ.
+        o.append("""
+fn chk_arr(x: u8) -> bool {
+    let x2 = x ^ 0x55;
+    let mut a = ArrayTrait::<%(t)s>::new();
+    a.append(mk(x)); a.append(mk(x2)); a.append(mk(x));
+    let l = a.len();
+    let p0 = a.pop_front();
+    let p1 = a.pop_front();
+    let p2 = a.pop_front();
+    let p3 = a.pop_front();
+    l == 3 && p0 == Option::Some(mk(x)) && p1 == Option::Some(mk(x2)) && p2 == Option::Some(mk(x)) && p3.is_none()
+}
+fn chk_index(x: u8) -> bool {
+    let x2 = x ^ 0x55;
+    let a = array![mk(x), mk(x2), mk(x), mk(x2), mk(x2)];
+    let s = a.span();
+    *s[0] == mk(x) && *s[1] == mk(x2) && *a[2] == mk(x) && *a.at(3) == mk(x2) && *s.at(4) == mk(x2)
+        && match s.get(1) { Option::Some(b) => *b.unbox() == mk(x2), Option::None => false }
+        && s.get(5).is_none()
+}
+fn chk_span(x: u8) -> bool {
+    let x2 = x ^ 0x55;
+    let a = array![mk(x), mk(x2), mk(x2), mk(x), mk(x2)];
+    let mut s = a.span();
+    let f = s.pop_front();
+    let b = s.pop_back();
+    let sl = s.slice(1, 2);
+    let ok1 = match f { Option::Some(v) => *v == mk(x), Option::None => false };
+    let ok2 = match b { Option::Some(v) => *v == mk(x2), Option::None => false };
+    ok1 && ok2 && s.len() == 3 && sl.len() == 2 && *sl[0] == mk(x2) && *sl[1] == mk(x) && *s[0] == mk(x2)
+}
+fn chk_multi_pop(x: u8) -> bool {
+    let x2 = x ^ 0x55;
+    let a = array![mk(x), mk(x2), mk(x2), mk(x), mk(x)];
+    let mut s = a.span();
+    let ok1 = match s.multi_pop_front::<2>() { Option::Some(b) => { let [p, q] = (*b).unbox(); p == mk(x) && q == mk(x2) }, Option::None => false };
+    let ok2 = match s.multi_pop_back::<2>() { Option::Some(b) => { let [p, q] = (*b).unbox(); p == mk(x) && q == mk(x) }, Option::None => false };
+    ok1 && ok2 && s.len() == 1 && *s[0] == mk(x2) && s.multi_pop_front::<2>().is_none()
+}
+fn chk_box(x: u8) -> bool {
+    let b = BoxTrait::new(mk(x));
+    let c = BoxTrait::new((mk(x ^ 0x55), 7_u8, mk(x)));
+    let (p, k, q) = c.unbox();
+    b.unbox() == mk(x) && p == mk(x ^ 0x55) && k == 7 && q == mk(x)
+}
+fn chk_nullable(x: u8) -> bool {
+    let n: Nullable<%(t)s> = NullableTrait::new(mk(x));
+    let z: Nullable<%(t)s> = Default::default();
+    !n.is_null() && z.is_null() && n.deref() == mk(x)
+}
+fn chk_option(x: u8) -> bool {
+    let o = if x %% 2 == 0 { Option::Some(mk(x)) } else { Option::None };
+    let r: Result<%(t)s, (u8, %(t)s)> = if x %% 3 == 0 { Result::Ok(mk(x)) } else { Result::Err((x, mk(x ^ 0x55))) };
+    let ok1 = match o { Option::Some(v) => x %% 2 == 0 && v == mk(x), Option::None => x %% 2 == 1 };
+    let ok2 = match r { Result::Ok(v) => x %% 3 == 0 && v == mk(x), Result::Err((k, v)) => x %% 3 != 0 && k == x && v == mk(x ^ 0x55) };
+    ok1 && ok2
+}
+fn chk_locals(x: u8) -> bool {
+    let x2 = x ^ 0x55;
+    let a = mk(x);
+    let k = burn(x %% 4);
+    let b = mk(x2);
+    let k2 = burn(k);
+    let c = (mk(x), b, 9_u8);
+    let k3 = burn(k2);
+    let (c0, c1, c2) = c;
+    a == mk(x) && b == mk(x2) && c0 == mk(x) && c1 == mk(x2) && c2 == 9 && k3 == x %% 4
+}
+#[derive(Copy, Drop, PartialEq)]
+struct CW { p: u8, v: %(t)s, q: u256, w: %(t)s }
+#[derive(Copy, Drop, PartialEq)]
+enum CE { A: %(t)s, B, C: (u8, %(t)s), D: CW }
+fn chk_struct(x: u8) -> bool {
+    let x2 = x ^ 0x55;
+    let w = CW { p: x, v: mk(x), q: 0x1_00000000000000000000000000000002, w: mk(x2) };
+    let CW { p, v, q, w: ww } = w;
+    let w2 = CW { v: mk(x2), ..w };
+    p == x && v == mk(x) && q.high == 1 && q.low == 2 && ww == mk(x2) && w.v == mk(x) && w.w == mk(x2)
+        && w2.v == mk(x2) && w2.w == mk(x2) && w2.p == x && w == CW { p: x, v: mk(x), q: w.q, w: mk(x2) } && (w != w2) == (mk(x) != mk(x2))
+}
+fn chk_enum(x: u8) -> bool {
+    let x2 = x ^ 0x55;
+    let e = if x < 64 { CE::A(mk(x)) } else if x < 128 { CE::B } else if x < 192 { CE::C((x, mk(x2))) } else {
+        CE::D(CW { p: 1, v: mk(x2), q: 5, w: mk(x) })
+    };
+    let ok = match e {
+        CE::A(v) => x < 64 && v == mk(x),
+        CE::B => x >= 64 && x < 128,
+        CE::C((k, v)) => x >= 128 && x < 192 && k == x && v == mk(x2),
+        CE::D(w) => x >= 192 && w.p == 1 && w.v == mk(x2) && w.q == 5 && w.w == mk(x),
+    };
+    let ok2 = match @e { CE::A(v) => *v == mk(x), CE::B => true, CE::C((k, v)) => *k == x && *v == mk(x2), CE::D(w) => *w.v == mk(x2) };
+    ok && ok2 && e == e
+}
+fn chk_loop(x: u8) -> bool {
+    let mut a: Array<%(t)s> = array![];
+    let mut i = 0_u8;
+    while i != 5 { a.append(mk(x ^ i)); i += 1; };
+    let mut ok = a.len() == 5;
+    let mut j = 0_u8;
+    for v in a.span() { ok = ok && *v == mk(x ^ j); j += 1; };
+    ok && j == 5
+}
+fn chk_fixed(x: u8) -> bool {
+    let x2 = x ^ 0x55;
+    let f: [%(t)s; 3] = [mk(x), mk(x2), mk(x)];
+    let s = f.span();
+    let [a, b, c] = f;
+    a == mk(x) && b == mk(x2) && c == mk(x) && s.len() == 3 && *s[1] == mk(x2)
+}
+fn chk_closure(x: u8) -> bool {
+    let cap = mk(x ^ 0x55);
+    let c = |y: u8| (mk(y), cap);
+    let (p, q) = c(x);
+    p == mk(x) && q == cap
+}
+fn chk_dup(x: u8) -> bool { let v = mk(x); let s = @v; let (a, b, c) = (v, *s, v); a == b && b == c && c == mk(x) }
+#[inline(never)]
+fn pass(a: %(t)s, k: u8, b: %(t)s) -> (%(t)s, u8, %(t)s) { (b, k + 1, a) }
+#[inline(never)]
+fn swap(t: (%(t)s, u8, %(t)s)) -> (%(t)s, u8, %(t)s) { let (a, k, b) = t; (b, k, a) }
+#[inline(never)]
+fn dupe(t: (%(t)s, u8, %(t)s)) -> (%(t)s, u8, %(t)s) { let (a, k, _b) = t; (a, k, a) }
+fn swap_inl(t: CW) -> CW { let CW { p, v, q, w } = t; CW { p, v: w, q, w: v } }
+fn chk_swap(x: u8) -> bool {
+    let x2 = x ^ 0x55;
+    let (p, k, q) = swap((mk(x), 5, mk(x2)));
+    let (p2, _k2, q2) = dupe((mk(x), 5, mk(x2)));
+    let s = swap_inl(CW { p: 3, v: mk(x), q: 9, w: mk(x2) });
+    p == mk(x2) && k == 5 && q == mk(x) && p2 == mk(x) && q2 == mk(x) && s.v == mk(x2) && s.w == mk(x) && s.p == 3 && s.q == 9
+}
+fn chk_rebox(x: u8) -> bool {
+    let x2 = x ^ 0x55;
+    let b = BoxTrait::new(mk(x));
+    let other = mk(x2);
+    let v = if x %% 2 == 0 { b.unbox() } else { other };
+    let nb = BoxTrait::new(v);
+    let w = if x %% 3 == 0 { other } else { b.unbox() };
+    let nb2 = BoxTrait::new(w);
+    nb.unbox() == (if x %% 2 == 0 { mk(x) } else { mk(x2) }) && nb2.unbox() == (if x %% 3 == 0 { mk(x2) } else { mk(x) })
+}
+fn chk_call(x: u8) -> bool {
+    let x2 = x ^ 0x55;
+    let (p, k, q) = pass(mk(x), 5, mk(x2));
+    p == mk(x2) && k == 6 && q == mk(x)
+}
+""" % {"t": t})
+        if "serde" in f:
+            o.append("""
+fn chk_serde(x: u8) -> bool {
+    let v = (mk(x), 3_u8, mk(x ^ 0x55));
+    let mut out = array![];
+    v.serialize(ref out);
+    let mut sp = out.span();
+    let r = Serde::<(%(t)s, u8, %(t)s)>::deserialize(ref sp);
+    match r { Option::Some((a, k, b)) => a == mk(x) && k == 3 && b == mk(x ^ 0x55) && sp.len() == 0, Option::None => false }
+}
+""" % {"t": t})
+        if "dict" in f:
+            o.append("""
+fn chk_dict(x: u8, k: felt252) -> bool {
+    let mut d: Felt252Dict<%(t)s> = Default::default();
+    d.insert(k, mk(x));
+    d.insert(k + 1, mk(x ^ 0x55));
+    d.insert(k, mk(x ^ 0x55));
+    d.insert(k, mk(x));
+    let z: %(t)s = Default::default();
+    d.get(k) == mk(x) && d.get(k + 1) == mk(x ^ 0x55) && d.get(k + 2) == z
+}
+""" % {"t": t})
+        if n not in ("arr", "arrarr", "snap", "span"):
+            o.append("""
+fn chk_dict_nullable(x: u8, k: felt252) -> bool {
+    let mut d: Felt252Dict<Nullable<%(t)s>> = Default::default();
+    d.insert(k, NullableTrait::new(mk(x)));
+    d.insert(k + 1, NullableTrait::new(mk(x ^ 0x55)));
+    let a = d.get(k);
+    let b = d.get(k + 1);
+    let c = d.get(k + 2);
+    !a.is_null() && a.deref() == mk(x) && b.deref() == mk(x ^ 0x55) && c.is_null()
+}
+""" % {"t": t})
     if "serde" in f:
         o.append("""
 fn serde(x: u8) -> Option<%(t)s> {
